@@ -42,13 +42,17 @@ def c14_swapped_key_order(trace):
 
 
 def c15_redump_of_loaded(trace):
+    """A dump of an object that was itself loaded fails in the YAML representer / the safe
+    loader rejects the numpy tags it wrote."""
     e = trace.get("expect", {})
-    return e.get("oracle") in ("op-raised",) and "redump" in (e.get("tags") or [])
+    d = e.get("detail", "")
+    return "redump" in (e.get("tags") or []) and ("RepresenterError" in d or "ConstructorError" in d)
 
 
 def c15_empty_observable(trace):
+    """An observable with an empty point list breaks dump_tar / load_yaml with IndexError."""
     e = trace.get("expect", {})
-    return "empty-observable" in (e.get("tags") or [])
+    return "empty-observable" in (e.get("tags") or []) and "IndexError" in e.get("detail", "")
 
 
 def c20_echo_aliases_caller_card(trace):
